@@ -1283,6 +1283,15 @@ func (r *runningStep) startStage(container deployer.Plugin) (bool, int64, error)
 		return false, 0, fmt.Errorf("schema mismatch between local and remote deployed plugin in step %s/%s, unserializing input failed (%w)", r.runID, r.pluginStepID, err)
 	}
 
+	// Do not start the plugin if the step was cancelled in the meantime (for example because its
+	// stop condition fired before it got here): a cancelled step must not execute.
+	select {
+	case <-r.ctx.Done():
+		r.logger.Debugf("step closed before the plugin was started")
+		return true, 0, nil
+	default:
+	}
+
 	r.wg.Add(1)
 
 	// Runs the ATP client in a goroutine in order to wait for it.
